@@ -4,6 +4,7 @@ import tomllib
 from cfg import cfg_of
 from flow import Taint, Tracker, callee_matches, field_reads, op_local, prep, backward
 from rules import CallGuard, CallSink, CmpGuard, RetSink, AggSink, BlockSink
+from rules import PL
 from props.C04 import call_results, NRS, agg_field_operands
 from props.C01 import RS, WITHCFG
 import facts
@@ -147,7 +148,7 @@ def run(R):
             R.viol("C02.nonce", "nonce-nondeterministic", "generate_nonce_for_record uses %s" % bad[0]["ncallee"], gn, bad[0]["line"])
         prep(gn)
         ta = Taint(gn, through="all")
-        okk = 0 in ta.closure(ta.var_locals("key")) and 0 in ta.closure(ta.var_locals("nonce_starter"))
+        okk = 0 in ta.closure(PL(gn, 1)) and 0 in ta.closure(PL(gn, 0))  # (nonce_starter, key) by position
         if not okk:
             R.viol("C02.nonce", "nonce-inputs", "nonce does not depend on both the key and the seed-derived starter", gn, gn.lines[0])
         R.inst("C02.nonce", "K6 flows-to", "nonce = f(seed-derived starter, record key), deterministic", 2, okk and not bad)
